@@ -1,6 +1,6 @@
 (* C02 — Servers answer every request once, with its id, in arrival order. Theorems only; proofs in Proofs/PktMgrP.v, Proofs/PktMgrLiveP.v *)
 From Coq Require Import List Bool Arith.
-From Sftp Require Import Sched.PktMgr Sched.PktTrace Proofs.PktMgrP Proofs.PktMgrLiveP Proofs.PktTraceP.
+From Sftp Require Import Sched.PktMgr Sched.PktTrace Proofs.PktMgrP Proofs.PktMgrLiveP Proofs.PktTraceP Proofs.PktTraceLiveP.
 Import ListNotations.
 
 (* for every request program (any mix of read/write, close and command requests pipelined without waiting) and every
@@ -59,6 +59,15 @@ Theorem C02_accepted_trace_in_order : forall tr s owed,
   inv1 s /\ emitted s = es_of tr ++ owed /\ es_of tr = seq 1 (length (es_of tr)).
 Proof. exact accepted_raw_in_order. Qed.
 Print Assumptions C02_accepted_trace_in_order.
+
+(* ... and nothing is lost in the recorded runs either: an accepted trace that ends with nothing in flight (every run of
+   the pmt family that is not cut short ends so, and the check compares `quiescent`) has answered every request exactly
+   once - its E events, followed by what the last controller step still owes, are 1 .. number of arrivals *)
+Theorem C02_accepted_trace_complete : forall tr s owed,
+  accept_raw tr = inl (s, owed) -> quiescent s = true ->
+  es_of tr ++ owed = seq 1 (arrived s).
+Proof. exact accepted_raw_quiescent_complete. Qed.
+Print Assumptions C02_accepted_trace_complete.
 
 (* MODELLED, NOT PROVED ABOUT THE CODE: that the LTS is the packet manager (tied by the c02 family's oracle and by code
    reading, see DESIGN 0.2); the response id equals the request id (oracle of c02); behaviour when the input ends while
